@@ -147,15 +147,16 @@ pub fn spec(id: &str) -> Option<Spec> {
                    each concrete instruction is assembled+encoded, its length compared with op_size, its first word \
                    decoded by the VM's decoder, then loaded into a fresh cairo-vm at a random pc with 16 seeded machine \
                    states (some cells deliberately unset, pointers for double-deref / abs jumps) and stepped once; \
-                   registers and every touched cell are compared with a reference one-step semantics. Blake2s / QM31 \
-                   forms are encoded and decoded only. Non-trivial = distinct concrete instruction text with >= 1 state \
+                   registers and every touched cell are compared with a reference one-step semantics (blake2s: an \
+                   RFC 7693 compression function over seeded state / message / counter / output segments, all 8 register \
+                   combinations x finalize; {QM31}: add and mul over packed elements incl. invalid packings). Non-trivial = distinct concrete instruction text with >= 1 state \
                    stepped and compared.",
             floor: |t| t.pick(2000, 50_000),
             shards: |_| 16,
             crash_is_violation: false,
             assumptions: &[
                 "states where the VM would have to deduce an operand of a binary operation are not modelled (counted as states_unmodelled)",
-                "Blake2s/QM31 stepping is a blind spot (encode/decode only)",
+                "{QM31} forms without an operation (deref / immediate right-hand sides) are encoded and decoded only",
             ],
             worker_timeout_s: |t| t.pick(900, 3 * 3600),
             rayon_threads: 1,
